@@ -329,7 +329,7 @@ struct SharedIso {
   CrashMarker marker;
 };
 
-IsoResult runIsolated(const Plan &plan, double timeoutSec) {
+IsoResult runIsolated(const Plan &plan, double timeoutSec, const std::vector<Plan> *prefix = nullptr) {
   IsoResult out;
   static SharedIso *sh = nullptr;
   if (!sh) sh = (SharedIso *)mmap(nullptr, sizeof(SharedIso), PROT_READ | PROT_WRITE, MAP_SHARED | MAP_ANONYMOUS, -1, 0);
@@ -350,6 +350,9 @@ IsoResult runIsolated(const Plan &plan, double timeoutSec) {
       close(efd);
     }
     setCrashMarker(&sh->marker);
+    // history: plans executed earlier in this same process (results ignored)
+    if (prefix)
+      for (auto &pp : *prefix) (void)executePlan(pp);
     ExecResult r = executePlan(plan);
     std::string s = serializeResult(r) + "END\n";
     size_t off = 0;
@@ -617,6 +620,70 @@ struct Minimiser {
   }
 };
 
+// Trace hashes of plans executed each in its own child forked from this
+// (pristine) process, which never runs library code itself: executions without
+// any in-process history.  Up to `par` children at a time.
+std::map<long long, uint64_t> pristineHashes(const std::vector<std::pair<long long, Plan>> &jobs, int par, double timeoutSec) {
+  std::map<long long, uint64_t> out;
+  struct Child {
+    pid_t pid;
+    int fd;
+    long long idx;
+    std::string buf;
+    double t0;
+  };
+  std::vector<Child> live;
+  size_t next = 0;
+  while (next < jobs.size() || !live.empty()) {
+    while (next < jobs.size() && (int)live.size() < par) {
+      int pfd[2];
+      if (pipe(pfd) != 0) break;
+      fflush(stdout);
+      pid_t pid = fork();
+      if (pid == 0) {
+        close(pfd[0]);
+        for (auto &c : live) close(c.fd);
+        int nul = open("/dev/null", O_WRONLY);
+        if (nul >= 0) dup2(nul, 2);
+        ExecResult r = executePlan(jobs[next].second);
+        std::string s = std::to_string(r.traceHash) + "\n";
+        if (write(pfd[1], s.data(), s.size()) < 0) _exit(3);
+        _exit(0);
+      }
+      close(pfd[1]);
+      live.push_back({pid, pfd[0], jobs[next].first, "", nowSec()});
+      ++next;
+    }
+    std::vector<struct pollfd> pf;
+    for (auto &c : live) pf.push_back({c.fd, POLLIN, 0});
+    poll(pf.data(), pf.size(), 100);
+    for (size_t k = 0; k < live.size();) {
+      bool done = false;
+      if (pf.size() > k && (pf[k].revents & (POLLIN | POLLHUP))) {
+        char tmp[256];
+        ssize_t n = read(live[k].fd, tmp, sizeof tmp);
+        if (n > 0) live[k].buf.append(tmp, n);
+        else done = true;
+      }
+      if (!done && nowSec() - live[k].t0 > timeoutSec) {
+        kill(live[k].pid, SIGKILL);
+        done = true;
+      }
+      if (done) {
+        int st = 0;
+        waitpid(live[k].pid, &st, 0);
+        close(live[k].fd);
+        if (!live[k].buf.empty() && WIFEXITED(st) && WEXITSTATUS(st) == 0) out[live[k].idx] = strtoull(live[k].buf.c_str(), nullptr, 10);
+        live.erase(live.begin() + k);
+        pf.erase(pf.begin() + k);
+      } else {
+        ++k;
+      }
+    }
+  }
+  return out;
+}
+
 // --------------------------------------------------------------- batch ----
 struct BatchCfg {
   std::string prop;
@@ -634,6 +701,7 @@ struct BatchCfg {
   int maxReports = 4;
   std::string only;             // restrict to one profile (debugging)
   std::string dumpHashes;       // write "idx tracehash" per run (determinism self-test)
+  int histEvery = 0;            // C08: every n-th run is re-executed without process history and compared
 };
 
 struct RunSpec {
@@ -741,9 +809,34 @@ int replayMain(int argc, char **argv) {
   if (argc < 1) return 2;
   Plan p;
   std::string err;
-  if (!planLoad(argv[0], p, err)) {
+  std::vector<Plan> multi;
+  if (!planLoadMulti(argv[0], multi, err)) {
     fprintf(stderr, "cannot load plan: %s\n", err.c_str());
     return 2;
+  }
+  p = multi.back();
+  if (multi.size() > 1) {
+    // history replay: the last plan alone vs. after the earlier plans, in fresh processes
+    mkdir(g_tmpDir.c_str(), 0755);
+    std::vector<Plan> prefix(multi.begin(), multi.end() - 1);
+    printf("history replay %s\n  last plan: %s\n  executed after %zu other plan(s) in the same process\n", argv[0], planSummary(p).c_str(), prefix.size());
+    IsoResult a1 = runIsolated(p, 120), a2 = runIsolated(p, 120);
+    IsoResult h1 = runIsolated(p, 120, &prefix), h2 = runIsolated(p, 120, &prefix);
+    if (!a1.completed || !a2.completed || !h1.completed || !h2.completed) {
+      printf("  an execution did not complete\n");
+      return 2;
+    }
+    printf("  alone:        %s / %s\n  with history: %s / %s\n", hex64(a1.res.traceHash).c_str(), hex64(a2.res.traceHash).c_str(), hex64(h1.res.traceHash).c_str(), hex64(h2.res.traceHash).c_str());
+    if (a1.res.traceHash != a2.res.traceHash || h1.res.traceHash != h2.res.traceHash) {
+      printf("REPLAY-NONDETERMINISTIC\n");
+      return 2;
+    }
+    if (a1.res.traceHash != h1.res.traceHash) {
+      printf("REPRODUCED property=C08 clause=result-depends-on-process-history\n");
+      return 1;
+    }
+    printf("NOT-REPRODUCED\n");
+    return 0;
   }
   std::string expectProp, expectClause;
   for (int i = 1; i + 1 < argc; ++i)
@@ -806,6 +899,7 @@ int batchMain(int argc, char **argv) {
     else if (a == "--only") cfg.only = next();
     else if (a == "--tmp") g_tmpDir = next();
     else if (a == "--dump-hashes") cfg.dumpHashes = next();
+    else if (a == "--hist-every") cfg.histEvery = atoi(next().c_str());
   }
   if (cfg.prop.empty() || profilesFor(cfg.prop).empty()) {
     fprintf(stderr, "batch: unknown property '%s'\n", cfg.prop.c_str());
@@ -823,6 +917,7 @@ int batchMain(int argc, char **argv) {
   new (&sh->stop) std::atomic<int>(0);
   std::vector<Worker> ws(cfg.workers);
   std::map<long long, RunRecord> recs;
+  std::function<void(const Worker *)> slotHistoryClear = [](const Worker *) {};
   auto spawn = [&](int slot) {
     int pfd[2];
     if (pipe(pfd) != 0) return;
@@ -841,6 +936,7 @@ int batchMain(int argc, char **argv) {
     fcntl(pfd[0], F_SETFL, O_NONBLOCK);
     w.pid = pid;
     w.fd = pfd[0];
+    slotHistoryClear(&w);
     w.buf.clear();
     w.current = -1;
     w.inResult = false;
@@ -888,10 +984,22 @@ int batchMain(int argc, char **argv) {
       candidates.push_back(idx);
     }
   };
+  std::map<const Worker *, std::vector<long long>> slotHistory;  // runs executed so far by the live process of a slot
+  std::map<long long, std::vector<long long>> historyOf;         // sampled run -> runs its process executed before it
+  std::map<long long, uint64_t> phase1Hash;
+  slotHistoryClear = [&](const Worker *w) { slotHistory[w].clear(); };
   auto handleLine = [&](Worker &w, const std::string &line) {
     if (line.size() >= 2 && line[0] == 'B' && line[1] == '\t') {
       w.current = atoll(line.c_str() + 2);
       w.startedAt = nowSec();
+      if (cfg.histEvery > 0) {
+        auto &h = slotHistory[&w];
+        if (w.current % cfg.histEvery == 0) {
+          size_t from = h.size() > 40 ? h.size() - 40 : 0;
+          historyOf[w.current] = std::vector<long long>(h.begin() + from, h.end());
+        }
+        h.push_back(w.current);
+      }
       return;
     }
     if (line.size() >= 2 && line[0] == 'R' && line[1] == '\t') {
@@ -911,6 +1019,7 @@ int batchMain(int argc, char **argv) {
         slowestRun = took;
         slowestIdx = w.resultIdx;
       }
+      if (cfg.histEvery > 0 && w.resultIdx % cfg.histEvery == 0 && !w.partial.invalidPlan) phase1Hash[w.resultIdx] = w.partial.traceHash;
       absorb(w.resultIdx, w.partial, w.nondet);
       w.inResult = false;
       w.current = -1;
@@ -1044,6 +1153,69 @@ int batchMain(int argc, char **argv) {
   }
   int unknownViolations = 0;
   std::set<std::string> knownPrinted;
+  // ---- C08: independence of process history ----
+  long long histCompared = 0, histMismatch = 0;
+  if (cfg.histEvery > 0 && !phase1Hash.empty()) {
+    std::vector<std::pair<long long, Plan>> jobs;
+    for (auto &kv : phase1Hash) {
+      RunSpec rs = runSpec(cfg, kv.first);
+      jobs.emplace_back(kv.first, generatePlan(rs.profile, rs.seed, cfg.tier));
+    }
+    std::map<long long, uint64_t> fresh = pristineHashes(jobs, cfg.workers, cfg.runTimeout);
+    std::vector<long long> differing;
+    for (auto &kv : phase1Hash) {
+      auto it = fresh.find(kv.first);
+      if (it == fresh.end()) continue;
+      ++histCompared;
+      if (it->second != kv.second) {
+        ++histMismatch;
+        differing.push_back(kv.first);
+      }
+    }
+    stats.inc("history_independence_comparisons", histCompared);
+    bool reported = false;
+    for (long long idx : differing) {
+      if (reported) break;
+      RunSpec rs = runSpec(cfg, idx);
+      Plan plan = generatePlan(rs.profile, rs.seed, cfg.tier);
+      // find one earlier run of the same worker process that is enough to change the result
+      const std::vector<long long> &hist = historyOf[idx];
+      IsoResult alone = runIsolated(plan, cfg.runTimeout);
+      if (!alone.completed) continue;
+      for (int k = (int)hist.size() - 1; k >= 0 && !reported; --k) {
+        RunSpec rj = runSpec(cfg, hist[k]);
+        std::vector<Plan> prefix = {generatePlan(rj.profile, rj.seed, cfg.tier)};
+        IsoResult a = runIsolated(plan, cfg.runTimeout, &prefix), b = runIsolated(plan, cfg.runTimeout, &prefix);
+        if (!a.completed || !b.completed) continue;
+        if (a.res.traceHash == alone.res.traceHash || a.res.traceHash != b.res.traceHash) continue;
+        IsoResult alone2 = runIsolated(plan, cfg.runTimeout);
+        if (!alone2.completed || alone2.res.traceHash != alone.res.traceHash) continue;
+        std::string path = cfg.replayDir + "/" + cfg.prop + "-result-depends-on-process-history-" + std::to_string(rs.seed) + ".plan";
+        std::vector<Plan> both = {prefix[0], plan};
+        planSaveMulti(path, both);
+        Report rp;
+        rp.clause = "result-depends-on-process-history";
+        rp.detail = "the event trace of a run (all exposed states and results) differs when another, unrelated run was executed earlier in the same process: alone " + hex64(alone.res.traceHash) + ", after the other run " + hex64(a.res.traceHash);
+        rp.replay = path;
+        rp.idx = idx;
+        rp.seed = rs.seed;
+        rp.profile = rs.profile;
+        rp.known = false;
+        rp.summary = planSummary(plan);
+        rp.minimisedSummary = "history: " + planSummary(prefix[0]) + " ; then: " + planSummary(plan);
+        rp.minRuns = 0;
+        reports.push_back(rp);
+        ++unknownViolations;
+        reported = true;
+        printf("VIOLATION property=%s replay=%s\n", cfg.prop.c_str(), path.c_str());
+        printf("  clause=result-depends-on-process-history seed=%llu profile=%s runs-with-this-class=%lld flavour=%s\n  %s\n  %s\n", (unsigned long long)rs.seed, rs.profile.c_str(), histMismatch, VERIF_FLAVOUR, rp.detail.c_str(), rp.minimisedSummary.c_str());
+      }
+    }
+    if (histMismatch > 0 && !reported) {
+      printf("HARNESS-UNREPRODUCED property=%s clause=result-depends-on-process-history: %lld run(s) differed from their history-free re-execution but no single earlier run reproduces it\n", cfg.prop.c_str(), histMismatch);
+      ++harnessProblems;
+    }
+  }
   for (auto &kc : classFirst) {
     const std::string &key = kc.first;
     long long idx = kc.second;
@@ -1129,6 +1301,7 @@ int batchMain(int argc, char **argv) {
     js << " \"nondeterministic_double_runs\": " << nondetRuns << ",\n \"harness_problems\": " << harnessProblems << ",\n";
     js << " \"slowest_run_s\": " << slowestRun << ",\n \"stopped_early\": " << (sh->stop.load() ? "true" : "false") << ",\n";
     js << " \"wall_s\": " << wall << ",\n \"run_phase_s\": " << tRun << ",\n \"runs_per_hour\": " << (tRun > 0 ? executed * 3600.0 / tRun : 0) << ",\n";
+    js << " \"history_independence_comparisons\": " << histCompared << ",\n \"history_independence_mismatches\": " << histMismatch << ",\n";
     js << " \"violations\": " << unknownViolations << ",\n";
     js << " \"known_findings_matched\": [";
     {
